@@ -665,7 +665,7 @@ Proof.
       pose proof HI as [HK [HV HR]]. simpl in HK, HV.
       pose proof (Forall_nth _ _ _ _ HK En) as HKx.
       assert (Hnr : st x <> Running).
-      { unfold Krow in HKx. rewrite Hq in HKx. tauto. }
+      { destruct Hq as [Hq _]. unfold Krow in HKx. rewrite Hq in HKx. tauto. }
       destruct (Krow_not_running x HKx Hnr) as [Hc Hh].
       destruct (outs_match (sig x) g).
       * (* full recycle *)
